@@ -225,15 +225,20 @@ void ScriptMaster::DeleteProgramScript(ProgramScript* script)
 {
     m_ProgramScripts.remove(script->Filename());
 
-    con::Container<ScriptClass*> list;
-    ScriptClass* scriptClass;
-
-    ScriptClass* next;
-    for (scriptClass = GetHeadContainer(); scriptClass != nullptr; scriptClass = next)
+    // Deleting one instance can delete other instances with it (threads of different instances
+    // waiting on each other): a next pointer saved across a deletion can dangle, so start again
+    // from the head after every deletion.
+    ScriptClass* scriptClass = GetHeadContainer();
+    while (scriptClass != nullptr)
     {
-        next = scriptClass->GetNext();
-        if (scriptClass->GetScript() == script) {
+        if (scriptClass->GetScript() == script)
+        {
             delete scriptClass;
+            scriptClass = GetHeadContainer();
+        }
+        else
+        {
+            scriptClass = scriptClass->GetNext();
         }
     }
 
@@ -433,14 +438,20 @@ void ScriptMaster::Archive(Archiver& arc)
 
 void ScriptMaster::KillScripts()
 {
-    ScriptClass* next;
-    for (ScriptClass* s = headScript; s; s = next)
+    // every deletion unlinks the instance (and any instance its threads take down with them)
+    while (headScript)
     {
-        next = s->GetNext();
-        delete s;
-    }
+        ScriptClass* const s = headScript;
+        ScriptClass* const next = s->GetNext();
 
-    headScript = nullptr;
+        delete s;
+
+        if (headScript == s)
+        {
+            // a dead class (no script) does not unlink itself
+            headScript = next;
+        }
+    }
 }
 
 ThreadExecutionProtection::ThreadExecutionProtection()
